@@ -519,13 +519,22 @@ func TestVerifC20(t *testing.T) {
 				continue
 			}
 			u := strings.Repeat("x", size)
+			lagging := map[int]bool{}
 			start := time.Now()
 			for i := 0; i < n; i++ {
 				eventNotifier.PublishServiceProviderLoginEvent(u, "flood")
 				// give the fast readers time to keep up: the flood is there to fill the stalled ones
+				// (a reader that once fails to keep up within the time limit is not waited for again)
 				for _, s := range h.fast() {
-					for j := 0; j < 20000 && s.count()-s.seen < i+1; j++ {
+					if lagging[s.id] {
+						continue
+					}
+					deadline := time.Now().Add(500 * time.Millisecond)
+					for s.count()-s.seen < i+1 && time.Now().Before(deadline) {
 						time.Sleep(50 * time.Microsecond)
+					}
+					if s.count()-s.seen < i+1 {
+						lagging[s.id] = true
 					}
 				}
 			}
